@@ -86,6 +86,11 @@ RemoveListErr == /\ IsEvent("removelist") /\ Ev.res # "ok" /\ Observed /\ sl' = 
                  /\ \A k \in 1..Len(db) : db[k] # Ev.target
 ListQuery == /\ IsEvent("listquery") /\ Observed /\ db' = db /\ sl' = sl
              /\ Ev.res \in {"true", "false"} /\ (Ev.res = "true" <=> InList(sl, Ev.o, Ev.d))
+SameShape(x, s) == x.type = s.type /\ x.size = s.size
+AllIn(x, s) == \A k \in 1..Len(s.entries) : InList(x, s.entries[k].owner, s.entries[k].data)
+ListQueryDb == /\ IsEvent("listquerydb") /\ Observed /\ db' = db /\ sl' = sl /\ Ev.res \in {"true", "false"}
+               /\ ((\E k \in 1..Len(sl.entries) : ~InFlat(db, sl.type, sl.entries[k].owner, sl.entries[k].data)) => Ev.res = "false")
+               /\ ((\E i \in 1..Len(db) : SameShape(db[i], sl) /\ AllIn(db[i], sl) /\ \A j \in 1..Len(db) : SameShape(db[j], sl) => j = i) => Ev.res = "true")
 AllDecodable(d) == \A i \in 1..Len(d) : d[i].type \in Decodable
 Recode    == /\ IsEvent("recode") /\ Observed /\ sl' = sl
              /\ \/ Ev.res = "ok" /\ db' = db
@@ -96,7 +101,7 @@ Reset     == IsEvent("reset") /\ db' = Ev.db /\ sl' = Ev.sl /\ db' = <<>>
 Init == db = <<>> /\ sl = [type |-> "none", listsize |-> 0, hdrsize |-> 0, size |-> 0, entries |-> <<>>] /\ l = 1
 NoList == [type |-> "none", listsize |-> 0, hdrsize |-> 0, size |-> 0, entries |-> <<>>]
 Conform == \/ AppendOk \/ AppendErr \/ RemoveOk \/ RemoveErr \/ Query \/ ListNew \/ ListAppendOk \/ ListAppendErr
-           \/ ListRemoveOk \/ ListRemoveErr \/ AppendList \/ Load \/ RemoveListOk \/ RemoveListErr \/ ListQuery \/ Recode \/ Skip \/ Reset
+           \/ ListRemoveOk \/ ListRemoveErr \/ AppendList \/ Load \/ RemoveListOk \/ RemoveListErr \/ ListQuery \/ ListQueryDb \/ Recode \/ Skip \/ Reset
 (* An event no action explains is recorded (register 2) and the rest of that scenario is skipped *)
 (* (Ev.nx = index of the next reset event), so that every other scenario is still validated.     *)
 Deviate == /\ l <= Len(Trace) /\ ~ENABLED Conform
